@@ -121,6 +121,15 @@ type dealer struct {
 
 	metaPeer wamp.Peer
 
+	// Registration meta events are published by whoever submitted the request
+	// that caused them, after the dealer goroutine has carried it out (the
+	// dealer goroutine itself must not wait on the meta session). metaQueue
+	// makes them go out in the order in which the dealer acted: each batch
+	// takes a turn inside its action and is published when the batches before
+	// it have been.
+	metaMu    sync.Mutex
+	metaQueue []chan struct{}
+
 	log   stdlog.StdLog
 	debug bool
 }
@@ -243,15 +252,15 @@ func (d *dealer) register(callee *wamp.Session, msg *wamp.Register) {
 	invoke, _ := wamp.AsString(msg.Options[wamp.OptInvoke])
 	forwardTimeout, _ := msg.Options[wamp.OptForwardTimeout].(bool)
 	var metaPubs []*wamp.Publish
+	var turn chan struct{}
 	done := make(chan struct{})
 	d.actionChan <- func() {
 		metaPubs = d.syncRegister(callee, msg, match, invoke, disclose, forwardTimeout, wampURI)
+		turn = d.syncMetaTurn(metaPubs)
 		close(done)
 	}
 	<-done
-	for _, pub := range metaPubs {
-		d.metaPeer.Send() <- pub
-	}
+	d.publishMeta(turn, metaPubs)
 }
 
 // unregister removes a remote procedure previously registered by the callee.
@@ -260,15 +269,15 @@ func (d *dealer) unregister(callee *wamp.Session, msg *wamp.Unregister) {
 		panic("dealer.Unregister with nil session or message")
 	}
 	var metaPubs []*wamp.Publish
+	var turn chan struct{}
 	done := make(chan struct{})
 	d.actionChan <- func() {
 		metaPubs = d.syncUnregister(callee, msg)
+		turn = d.syncMetaTurn(metaPubs)
 		close(done)
 	}
 	<-done
-	for _, pub := range metaPubs {
-		d.metaPeer.Send() <- pub
-	}
+	d.publishMeta(turn, metaPubs)
 
 }
 
@@ -406,15 +415,50 @@ func (d *dealer) removeSession(sess *wamp.Session) {
 	// from inside the dealer goroutine can deadlock since metaPeer may alredy
 	// be waiting for the dealer goroutine to process a yield.
 	var metaPubs []*wamp.Publish
+	var turn chan struct{}
 	done := make(chan struct{})
 	d.actionChan <- func() {
 		metaPubs = d.syncRemoveSession(sess)
+		turn = d.syncMetaTurn(metaPubs)
 		close(done)
 	}
 	<-done
-	for _, pub := range metaPubs {
+	d.publishMeta(turn, metaPubs)
+}
+
+// syncMetaTurn, called inside the action that produced pubs, takes the next
+// place in the order of publication. Returns nil if there is nothing to
+// publish.
+func (d *dealer) syncMetaTurn(pubs []*wamp.Publish) chan struct{} {
+	if len(pubs) == 0 {
+		return nil
+	}
+	turn := make(chan struct{})
+	d.metaMu.Lock()
+	d.metaQueue = append(d.metaQueue, turn)
+	if len(d.metaQueue) == 1 {
+		close(turn)
+	}
+	d.metaMu.Unlock()
+	return turn
+}
+
+// publishMeta sends pubs to the meta session when it is their turn, then
+// lets the next batch go. Must not be called from the dealer goroutine.
+func (d *dealer) publishMeta(turn chan struct{}, pubs []*wamp.Publish) {
+	if turn == nil {
+		return
+	}
+	<-turn
+	for _, pub := range pubs {
 		d.metaPeer.Send() <- pub
 	}
+	d.metaMu.Lock()
+	d.metaQueue = d.metaQueue[1:]
+	if len(d.metaQueue) != 0 {
+		close(d.metaQueue[0])
+	}
+	d.metaMu.Unlock()
 }
 
 // close stops the dealer, letting already queued actions finish.
